@@ -51,6 +51,10 @@ def gen_cases(tier):
         for sig in itertools.product(codes, repeat=L):
             for w in ways:
                 yield mk([REPS[c] for c in sig], w)
+    # received closures of a process that is client and server at once, the other side's dispatcher further out
+    for sig in itertools.product(codes, repeat=2):
+        for w in WAYS[:4]:
+            yield dict(mk([REPS[c] for c in sig], w), nested=True)
     # alternative values (nil, untyped, NULL string, empty array) in first and second position
     for a in ALT:
         for c in codes:
